@@ -42,3 +42,12 @@ func Diamond(ctx context.Context, a string, n int) (s *Session, out Label, err e
 	)
 	return
 }
+
+// Compact: several options on one line and the next line starting at a smaller
+// column; Concurrency and the single int parameter have the same helper type.
+func Compact(ctx context.Context, n int) (out int64, err error) {
+	err = cff.Flow(ctx, cff.Results(&out), cff.Params(n),
+cff.Concurrency(2),
+		cff.Task(func(k int) (int64, error) { return int64(k) * 2, nil }))
+	return
+}
